@@ -358,6 +358,24 @@ loop:
 	o.lc.ShutdownInitiated(nil)
 	o.sub.Close()
 
+	// A reservation or a bid broadcast may still be in flight. Their results must not be
+	// dropped: a reservation that succeeds has to be released and a bid that was placed
+	// has to be closed below.
+	if clusterch != nil {
+		result := <-clusterch
+		clusterch = nil
+		if result.Error() == nil {
+			reservation = result.Value().(ctypes.Reservation)
+		}
+	}
+	if bidch != nil {
+		result := <-bidch
+		bidch = nil
+		if result.Error() == nil {
+			o.bidPlaced = true
+		}
+	}
+
 	// cancel reservation
 	if !won {
 		if reservation != nil {
